@@ -73,7 +73,7 @@ STRUCT = [0x2F, 0x21, 0x0A, 0x0D, 0x7E, 0x7D]
 
 
 def noise(rng, max_len: int = 400) -> tuple[bytes, str]:
-    kind = rng.choice(["random", "structural", "ident_like", "ident_without_end", "start_char_without_lf", "truncated_readout", "nonascii_ident", "bad_end_line", "bang_in_ident", "long_ident_like", "long", "empty"])
+    kind = rng.choice(["random", "structural", "ident_like", "ident_without_end", "start_char_without_lf", "truncated_readout", "nonascii_ident", "bad_end_line", "bang_in_ident", "long_ident_like", "ident_then_end_only", "long", "empty"])
     if kind == "empty":
         return b"", kind
     if kind == "random":
@@ -83,6 +83,8 @@ def noise(rng, max_len: int = 400) -> tuple[bytes, str]:
         return bytes(rng.choice(STRUCT) if rng.random() < 0.35 else (rng.randrange(0x80, 0x100) if rng.random() < 0.2 else rng.randrange(0x20, 0x7F)) for _ in range(n)), kind
     if kind == "ident_like":
         return ("/" + "".join(rng.choice(LETTERS + string.digits + " \\") for _ in range(rng.randint(0, 12)))).encode() + rng.choice([b"\r\n", b"\n", b""]), kind
+    if kind == "ident_then_end_only":
+        return ident(rng).encode("latin-1") + rng.choice([b"\r\n", b"\n"]) + rng.choice([b"!\r\n", b"!7A1C\r\n", b"!\n"]) * rng.randint(1, 2), kind
     if kind == "long_ident_like":
         body = bytes(rng.choice(b"ABCDEFGHIJKLMNOPQRSTUVWXYZ0123456789 _-.") for _ in range(rng.choice([17, 24, 28, 40, 64])))
         ctl = rng.choice([b"", b"\x01", b"\x07", b"\x7f", b"\x1b"])
